@@ -98,6 +98,7 @@ package main
 //@   ensures command-slot {C01,C02,C03,C04,C05,C12,C13,C14,C15,C19}: implies(result1 == nil && hasAttr && gate, SlotOK(c, A, B, "command"))
 //@   ensures cmd-slot {C01,C02,C03,C04,C05,C12,C13,C14,C15,C19}: implies(result1 == nil && hasAttr && gate, SlotOK(c, A, B, "cmd"))
 //@   ensures originating-command-slot {C01,C02,C03,C04,C05,C12,C13,C14,C15,C19}: implies(result1 == nil && hasAttr && gate, SlotOK(c, A, B, "originatingCommand"))
+//@   ensures command-args-slot {C01,C02,C03,C04,C05,C12,C13,C14,C15,C19}: implies(result1 == nil && hasAttr && gate, SlotOK(c, A, B, "commandArgs"))
 //@   ensures attr-ns-pseudonymised {C12,C13}: implies(result1 == nil && hasAttr && redactNamespaces && omIdx(A, "ns") >= 0, NsHashed(redactedString, omVal(A, omIdx(A, "ns")), omVal(B, omIdx(A, "ns"))))
 //@   ensures remote-address-replaced {C01,C02,C03,C04,C05,C12,C13,C14,C15,C19}: implies(result1 == nil && hasAttr && redactIPs && omIdx(A, "remote") >= 0 && isStr(omVal(A, omIdx(A, "remote"))), omVal(B, omIdx(A, "remote")) == VStr(C_IP))
 //@   at_call redactFieldNamesFromPlanSummary plan-summary-only-in-field-name-mode {C15}: shouldEagerRedact
